@@ -81,7 +81,17 @@ def gen_tab(repo):
     if any(b > 255 for b, _ in decode):
         raise TabError("From<u8> pattern above 0xFF")
     # ---- get_ver_from_magic_num
-    m = re.search(r"pub const fn get_ver_from_magic_num\(magic_num: u32\) -> PythonVersion \{\s*match magic_num \{(.*?)\n    \}", ser, re.S)
+    # the table lives in try_get_ver_from_magic_num (arms `=> Some(PythonVersion::new(..))`, `_ => None`);
+    # get_ver_from_magic_num must be that function plus a panic on None (older trees: the table itself, `_ => panic!`)
+    m = re.search(r"pub const fn try_get_ver_from_magic_num\(magic_num: u32\) -> Option<PythonVersion> \{\s*match magic_num \{(.*?)\n    \}", ser, re.S)
+    wrapped = m is not None
+    if wrapped:
+        w = re.search(r"pub const fn get_ver_from_magic_num\(magic_num: u32\) -> PythonVersion \{\s*match try_get_ver_from_magic_num\(magic_num\) \{\s*"
+                      r"Some\(ver\) => ver,\s*None => panic!\(", ser)
+        if not w:
+            raise TabError("get_ver_from_magic_num is no longer try_get_ver_from_magic_num + panic")
+    else:
+        m = re.search(r"pub const fn get_ver_from_magic_num\(magic_num: u32\) -> PythonVersion \{\s*match magic_num \{(.*?)\n    \}", ser, re.S)
     if not m:
         raise TabError("get_ver_from_magic_num not found")
     ranges = []
@@ -89,11 +99,11 @@ def gen_tab(repo):
         line = line.split("//")[0].strip()
         if not line:
             continue
-        mm = re.fullmatch(r"(\d+)(?:\.\.=(\d+))?\s*=>\s*PythonVersion::new\(3, Some\((\d+)\), Some\(0\)\),", line)
-        if mm:
+        mm = re.fullmatch(r"(\d+)(?:\.\.=(\d+))?\s*=>\s*(Some\()?PythonVersion::new\(3, Some\((\d+)\), Some\(0\)\)(\))?,", line)
+        if mm and bool(mm.group(3)) == wrapped and bool(mm.group(5)) == wrapped:
             lo = int(mm.group(1))
             hi = int(mm.group(2)) if mm.group(2) else lo
-            ranges.append((lo, hi, int(mm.group(3))))
+            ranges.append((lo, hi, int(mm.group(4))))
         elif line.startswith("_ =>"):
             continue
         else:
